@@ -31,7 +31,8 @@ def requirements(tier):
             "after_simulation": 40 * k, "reverse_links_compared": 30000 * k}
     return {"min_counters": need,
             "required_classes": ["mut_append", "mut_insert", "mut_extend", "mut_iadd", "mut_imul", "mut_pop", "mut_remove", "mut_remove_wrapper",
-                                 "mut_delitem", "mut_delslice", "mut_setitem", "mut_clear", "assign_live_list_of_other_object"]}
+                                 "mut_delitem", "mut_delslice", "mut_setitem", "mut_clear", "assign_live_list_of_other_object",
+                                 "grouped_links_to_same_target"]}
 
 
 def forward_links(E, objs):
@@ -244,10 +245,12 @@ def run_case(case):
             elif exc is None:
                 C["link_changing_operations"] += 1
         elif r < 0.62:
-            e = rnd.choice([edits.link_edit, edits.list_assign_edit])(rnd, h.spec)
+            e = rnd.choice([edits.link_edit, edits.list_assign_edit, edits.same_target_group_edit])(rnd, h.spec)
             if e is None:
                 continue
             C["link_assignments"] += 1
+            if e["op"] == "group":
+                classes.add("grouped_links_to_same_target")
             spec_after = h.spec_after(e)
             ref, err = h.reference(spec_after)
             exc = h.apply(e, spec_after)
